@@ -1,7 +1,7 @@
 """C04 - methods execute exactly when called by a running caller."""
 
 from tv.designs import gen_spec
-from tv.props._core_a import run_design
+from tv.props._core_a import run_design, tier_opts
 
 ID = "C04"
 ENGINE = "A"
@@ -21,7 +21,7 @@ def budget(tier):
 
 
 def strategy(tier):
-    return gen_spec(allow_rels=False)
+    return gen_spec(**{**tier_opts(tier), **dict(allow_rels=False)})
 
 
 def run_case(case):
